@@ -177,9 +177,10 @@ impl<'a> Machine<'a> {
                                 V::N(t, _) => t,
                                 _ => return Err(TYPE_MISMATCH),
                             };
+                            // start, limit and step are all evaluated (and converted) before the counter is set:
+                            // `I = 5: FOR I = 1 TO I + 5` runs ten times
                             let f = self.eval(cur_fx, from)?;
                             let f = conv(&f, ty)?;
-                            self.store_raw(cur_fx, var, f)?;
                             let t = self.eval(cur_fx, to)?;
                             let lim = match conv(&t, ty)? {
                                 V::N(_, x) => x,
@@ -199,6 +200,7 @@ impl<'a> Machine<'a> {
                             if st == 0.0 {
                                 return inexact("R4: STEP 0");
                             }
+                            self.store_raw(cur_fx, var, f)?;
                             self.frames[cur_fx].for_state.insert(*id, (lim, st));
                         }
                     }
